@@ -210,14 +210,26 @@ def data_drift_cases(out: Outcome, rng, n_cases: int) -> None:
             out.case({"class": name, "window": w, "pre_len": len(pre), "post_len": len(post)}, nontrivial=len(pre) > 0)
         alpha = rng.choice([1.0, 0.999, 0.9, 0.5])
         m1, m2 = PrequentialError(alpha=alpha), PrequentialError(alpha=alpha)
-        for _ in range(rng.randint(1, 30)):
+        n_pre = rng.choice([rng.randint(1, 30), rng.randint(300, 1200), 2500])      # also far beyond the point where the fading sums have converged
+        for _ in range(n_pre):
             m1(error_value=rng.choice([0, 1, 0.3]))
         m1.reset()
-        errs = [rng.choice([0, 1, 0.25]) for _ in range(rng.randint(1, 30))]
-        o1 = [f2h(m1(error_value=e)) for e in errs]
+        if rng.random() < 0.3:
+            m1.reset()
+        try:
+            if snap_val(vars(m1)) != snap_val(vars(PrequentialError(alpha=alpha))):
+                out.count("structural_state_differs_after_reset:PrequentialError")
+        except Exception:  # noqa: BLE001
+            pass
+        errs = [rng.choice([0, 1, 0.25]) for _ in range(rng.choice([rng.randint(1, 30), rng.randint(200, 700)]))]
+        try:
+            o1 = [f2h(m1(error_value=e)) for e in errs]
+        except Exception as e:  # noqa: BLE001
+            out.violation(f"PrequentialError(alpha={alpha}): a call after {n_pre} calls and reset() raises {type(e).__name__}: {e}", {"alpha": alpha, "pre_calls": n_pre, "errors": errs})
+            continue
         o2 = [f2h(m2(error_value=e)) for e in errs]
         if o1 != o2:
-            out.violation("PrequentialError: outputs after reset() differ from a fresh metric", {"alpha": alpha, "errors": errs})
+            out.violation("PrequentialError: outputs after reset() differ from a fresh metric", {"alpha": alpha, "pre_calls": n_pre, "errors": errs})
         out.case({"class": "PrequentialError", "alpha": alpha, "n": len(errs)})
 
 
